@@ -34,7 +34,8 @@ type Step struct {
 	Tags     string        `json:"tags,omitempty"`
 	Faults   []world.Fault `json:"faults,omitempty"`
 	Iter     string        `json:"iter,omitempty"`
-	NoGo     bool          `json:"nogo,omitempty"` // `go` not on PATH
+	NoGo     bool          `json:"nogo,omitempty"` // the loader's `go list` subprocess is unavailable or fails (GoFault says how; "" = `go` not on PATH)
+	GoFault  string        `json:"gofault,omitempty"` // list-exit1 | list-killed-midway | list-partial: a `go` shim in front of the real tool fails every `go list`
 	EnvTags  bool          `json:"envtags,omitempty"` // the environment's GOFLAGS carries build tags (not an option of the invocation: nothing may change)
 }
 
@@ -73,6 +74,9 @@ func (s Step) String() string {
 	}
 	if s.NoGo {
 		sb.WriteString(" nogo")
+		if s.GoFault != "" {
+			sb.WriteString(":" + s.GoFault)
+		}
 	}
 	if s.EnvTags {
 		sb.WriteString(" GOFLAGS=-tags")
@@ -103,7 +107,7 @@ func weighted(r *rand.Rand, names []string, weights []int) string {
 func randVariant(r *rand.Rand, okBias int) (string, int) {
 	n := 1 + r.IntN(9)
 	if r.IntN(100) < okBias {
-		return weighted(r, []string{"ok", "ok_rich", "ok_multi", "ok_badset", "noinj"}, []int{30, 25, 20, 10, 10}), n
+		return weighted(r, []string{"ok", "ok_rich", "ok_multi", "ok_badset", "ok_cycleset", "noinj"}, []int{30, 25, 20, 8, 7, 10}), n
 	}
 	var bad []string
 	for _, v := range Variants {
@@ -115,6 +119,9 @@ func randVariant(r *rand.Rand, okBias int) (string, int) {
 	v := pick(r, bad)
 	if v == "typeerr" && r.IntN(3) != 0 {
 		v = pick(r, bad)
+	}
+	if v == "bad_libset" {
+		v = "bad_multi" // needs lib_badset: only placed by GenCase itself, see libBad below
 	}
 	return v, n
 }
@@ -137,6 +144,16 @@ func GenCase(r *rand.Rand, prop string, thorough bool) *Case {
 	for i := 0; i < np; i++ {
 		v, n := randVariant(r, 75)
 		c.Pkgs = append(c.Pkgs, PkgInit{Name: pkgNames[i], Variant: v, N: n})
+	}
+	if libv == "lib_badset" && r.IntN(2) == 0 {
+		// two packages failing with the very same (library-positioned) error in one invocation
+		k := 0
+		for i := range c.Pkgs {
+			if i > 0 && k < 2 && (Info(c.Pkgs[i].Variant).Class == ClassBad || r.IntN(3) == 0) {
+				c.Pkgs[i].Variant = "bad_libset"
+				k++
+			}
+		}
 	}
 	names := []string{}
 	for _, p := range c.Pkgs {
@@ -361,6 +378,7 @@ func genCmd(r *rand.Rand, prop string, names, nonlib []string, cur map[string]st
 			st.Faults = append(st.Faults, world.Fault{Op: "getwd", Nth: 1, Kind: "enoent"})
 		case "nogo":
 			st.NoGo = true
+			st.GoFault = pick(r, []string{"", "", "list-exit1", "list-killed-midway", "list-partial"})
 		}
 	}
 	return st
